@@ -72,6 +72,11 @@ def main():
     t = time.time()
     res = multiprocessing_run(study, 'test', func, (i1, i2), max_procs=spec['procs'], allow_low_procs=True, avoid_crashes=True,
                               force_restart=False, verbose=False, perform_memory_check=False)
+    if spec.get('inprocess_restart'):
+        # a second call in the same interpreter (same pool size): the restart of a study whose failing cases are now fixed
+        fail.clear()
+        res = multiprocessing_run(study, 'test', func, (i1, i2), max_procs=spec['procs'], allow_low_procs=True, avoid_crashes=True,
+                                  force_restart=False, verbose=False, perform_memory_check=False)
     out = []
     if res is None:
         print('RESULTS null')
